@@ -35,7 +35,7 @@ ASSUMPTIONS = [
     "within 1e-8 + 1e3 * ||y_ret - y_exact|| (relative to the gradient scale)",
     "forward tolerances are explicit and tight (f_tol = 1e-11; gd/adam: x_tol = 1e-9); backward solvers get explicit "
     "rtol = atol = 1e-11 and a generous iteration limit; kappa(J) <= 4 by construction",
-    "bounds: 1e-8 (first order) / 1e-7 (second order) relative to max(1, largest reference gradient entry); 1e-4 for "
+    "bounds: 1e-9 (first order) / 1e-8 (second order) relative to max(1, largest reference gradient entry); 1e-4 for "
     "the default Krylov tolerance (documented rtol 1e-6) when the system has more than 5 unknowns",
     "a backward solve that emits a convergence warning is not judged numerically (only required not to raise); a "
     "forward call that warns is not judged",
@@ -112,6 +112,17 @@ def cases(tier, seed):
                                                     "dtype": dtype, "n": n, "shape": kind, "bck_method": bck,
                                                     "placement": placement, "guess": guess, "cot": cot,
                                                     "plane": plane, "seed": int(seed) if plane > 0 else 0})
+    # larger systems for the iterative backward solvers: with 24 unknowns a Krylov iteration does not terminate by
+    # exhausting the space, so the tolerance actually used by the (first- and second-order) backward solves is
+    # visible in the gradients
+    for functional in ("rootfinder", "equilibrium", "minimize"):
+        fam = "lcosh" if functional == "minimize" else "tanh06"
+        for method in (("newton", "broyden1") if quick else RF):
+            for bck in ("bicgstab", "cg", "gmres"):
+                for placement in (("explicit", "editable") if quick else PLACEMENTS[:5]):
+                    out.append({"functional": functional, "method": method, "family": fam, "dtype": "float64", "n": 24,
+                                "shape": "n", "bck_method": bck, "placement": placement, "guess": "zero",
+                                "cot": "dense", "plane": 0, "seed": 0})
     out.sort(key=lambda c: (c["plane"], c["placement"] != "explicit", c["n"] * (2 if c["shape"] == "2n" else 1)))
     return out
 
@@ -378,6 +389,20 @@ def _two_orders(y, wrt, cot, weights):
     return g1, g2
 
 
+def _jvp_at_zero_cotangent(y, wrt, weights):
+    """forward-mode product by double backward: the cotangent w of y is itself a differentiable tensor whose value
+    is exactly zero; d/dw sum_k <weights_k, d<w, y>/d theta_k> = (dy/dtheta) . weights.  (A backward pass that takes a
+    shortcut for an all-zero incoming gradient must still record how its result depends on that gradient.)"""
+    w0 = torch.zeros_like(y.detach()).requires_grad_()
+    L = _contract(w0, y)
+    g1 = torch.autograd.grad(L, wrt, create_graph=True, allow_unused=True)
+    terms = [_contract(w, g) for w, g in zip(weights, g1) if g is not None and g.requires_grad]
+    if not terms:
+        return None
+    h, = torch.autograd.grad(sum(terms), [w0], allow_unused=True, retain_graph=True)
+    return h
+
+
 def _cmp(tag, names, got, ref, tol, viol, obs, order, zero_names):
     scale = max([1.0] + [float(r.detach().abs().max()) for r in ref if r is not None and r.numel()])
     worst = 0.0
@@ -471,6 +496,10 @@ def run_case(cfg):
     weights = [_fixed(t.shape, t.dtype, 10 + k) for k, t in enumerate(wrt)]
 
     # ---- the implementation's gradients
+    oj = None
+    if cfg["cot"] == "zero":
+        torch.manual_seed(0)
+        oj = call(_jvp_at_zero_cotangent, y, wrt, weights)      # before the graph of y is consumed below
     torch.manual_seed(0)
     og = call(_two_orders, y, wrt, cot, weights)
     if og.exc is not None:
@@ -492,6 +521,7 @@ def run_case(cfg):
     y_ex = _newton_reference(res, y, torch.zeros_like(r0), nsteps=3)  # IFT at the exact root
     wmap = dict(zip(names, weights))
     rweights = [wmap[nm] for nm in ref_names]
+    hr_ref = _jvp_at_zero_cotangent(y_at, ref_wrt, rweights) if oj is not None else None
     a1, a2 = _two_orders(y_at, ref_wrt, cot, rweights)
     e1, e2 = _two_orders(y_ex, ref_wrt, cot, rweights)
     fwd_err = flat_norm(y.detach() - y_ex.detach())
@@ -506,12 +536,30 @@ def run_case(cfg):
     if cfg["bck_method"] == "default" and N > 5:
         t1, t2 = 1e-4, 1e-3
     else:
-        t1, t2 = 1e-8, 1e-7
+        # explicit backward tolerance 1e-11, kappa(J) <= 4: kappa * rtol per solve, two nested solves and a factor 10
+        # for the second order  =>  4e-11 / 1.6e-9; bounds one decade above (observed on a conforming tree <= 2e-11)
+        t1, t2 = 1e-9, 1e-8
     if bck_warned:
         obs["status"] = "bck-warned"
         return {"viol": viol, "obs": obs, "status": "bck-warned"}
     _cmp("grad-mismatch", names, g1, expand(a1), t1, viol, obs, 1, zero_names)
     _cmp("grad-mismatch", names, g2, expand(a2), t2, viol, obs, 2, zero_names)
+    if oj is not None:
+        if oj.exc is not None:
+            viol.append(V(_exc_class(oj, "jvp-at-zero-cotangent"), {"message": str(oj.exc)[:300]}))
+        elif not oj.warned:
+            hr = hr_ref
+            hl = oj.value
+            hz = torch.zeros_like(y.detach())
+            hl = hz if hl is None else hl.detach()
+            hr = hz if hr is None else hr.detach()
+            sc = max(1.0, float(hr.abs().max()))
+            ej = float((hl - hr).abs().max())
+            obs["jvp0"] = rnd(ej / sc, 2)
+            if not ej <= t2 * sc:
+                viol.append(V("jvp-at-zero-cotangent-mismatch", {"max_abs_err": ej, "tol": t2 * sc,
+                                                                 "got_max": float(hl.abs().max()),
+                                                                 "reference_max": float(hr.abs().max())}, order=2))
     ti = 1e3 * fwd_err
     _cmp("grad-depends-on-forward-path", names, g1, expand(e1), t1 + ti, viol, obs, 1, set(zero_names))
     _cmp("grad-depends-on-forward-path", names, g2, expand(e2), t2 + 10 * ti, viol, obs, 2, set(zero_names))
